@@ -860,6 +860,10 @@ func (a *Act) frameCheck(st *State, env *SpecEnv, pos token.Pos, ri *ssa.Return)
 		if a.modelFieldKey(k) {
 			continue
 		}
+		if k == "G:chanclosed" && !a.didClose {
+			// no close() in this function: the only changes are the environment's (a ReqResp responder), not writes of the function
+			continue
+		}
 		srt := vc.heapSorts[k]
 		h0 := vc.getHeap(a.entry, k, srt)
 		h1 := vc.getHeap(st, k, srt)
